@@ -27,6 +27,7 @@ STORAGE = [
     ("on-demand", ["-fallocate-str-space-dynamic-on-demand"]),
     ("on-demand+free", ["-fallocate-str-space-dynamic-on-demand", "-fdelete-string-free-memory"]),
     ("on-demand+free+u8", ["-fallocate-str-space-dynamic-on-demand", "-fdelete-string-free-memory", "-fstrings-as-u8"]),
+    ("dynamic+free", ["-fallocate-str-space-dynamic", "-fdelete-string-free-memory"]),
 ]
 
 
@@ -69,7 +70,7 @@ def work(job):
     res = {"name": prog["name"], "status": "ok", "sessions": 0, "viol": [], "corr": [], "states": 0, "builds": 0, "oos_seen": 0}
     wd = os.path.join(wd_root, str(os.getpid()))
     shutil.rmtree(wd, ignore_errors=True)
-    storages = STORAGE if tier == "thorough" else [STORAGE[0], STORAGE[2], STORAGE[3], STORAGE[4]]
+    storages = STORAGE if tier == "thorough" else [STORAGE[0], STORAGE[2], STORAGE[3], STORAGE[4], STORAGE[6]]
     first = True
     for sname, sargs in storages:
         c = rtdiff.Case(prog, ["-O1"] + prog["args"] + sargs, os.path.join(wd, sname), sanitize=True)
